@@ -26,6 +26,7 @@
     * :meth:`_AdbIOManagerAsync._read_expected_packet_from_device`
     * :meth:`_AdbIOManagerAsync._read_packet_from_device`
     * :meth:`_AdbIOManagerAsync._send`
+    * :meth:`_AdbIOManagerAsync._write_all`
     * :meth:`_AdbIOManagerAsync.close`
     * :meth:`_AdbIOManagerAsync.connect`
     * :meth:`_AdbIOManagerAsync.read`
@@ -554,11 +555,42 @@ class _AdbIOManagerAsync(object):
         """
         packed = msg.pack()
         _LOGGER.debug("bulk_write(%d): %r", len(packed), packed)
-        await self._transport.bulk_write(packed, adb_info.transport_timeout_s)
+        await self._write_all(packed, adb_info)
 
         if msg.data:
             _LOGGER.debug("bulk_write(%d): %r", len(msg.data), msg.data)
-            await self._transport.bulk_write(msg.data, adb_info.transport_timeout_s)
+            await self._write_all(msg.data, adb_info)
+
+    async def _write_all(self, data, adb_info):
+        """Write all of ``data`` to the device; the transport may accept fewer bytes than requested per call.
+
+        Parameters
+        ----------
+        data : bytes, bytearray
+            The data that will be sent
+        adb_info : _AdbTransactionInfo
+            Info and settings for this ADB transaction
+
+        Raises
+        ------
+        adb_shell.exceptions.AdbTimeoutError
+            Did not write all of ``data`` in time
+
+        """
+        start = time.time()
+
+        while True:
+            sent = await self._transport.bulk_write(data, adb_info.transport_timeout_s)
+
+            # ``bulk_write`` returns the number of bytes that were written (treat ``None`` as "everything")
+            if sent is None or sent >= len(data):
+                return
+
+            data = data[sent:]
+
+            if time.time() - start > adb_info.read_timeout_s:
+                # Timeout
+                raise exceptions.AdbTimeoutError("Timeout: {} bytes were not sent (transport_timeout_s = {}, read_timeout_s = {})".format(len(data), adb_info.transport_timeout_s, adb_info.read_timeout_s))
 
 
 class AdbDeviceAsync(object):
